@@ -10,12 +10,18 @@ use std::collections::HashMap;
 use std::io::ErrorKind;
 use std::sync::atomic::{AtomicU64, Ordering};
 use std::sync::{Arc, Mutex as StdMutex};
+#[cfg(not(repe_verif))]
 use tokio::net::TcpStream;
 use tokio::sync::mpsc;
 use tokio::sync::{Mutex, oneshot};
 use tokio::task::JoinError;
 use tokio::time::{Duration, timeout};
 use tokio_tungstenite::tungstenite::{self, Message as WsMessage};
+#[cfg(repe_verif)]
+use crate::verif_io::ws::{MaybeTlsStream, TcpStream, connect_async_with_config};
+#[cfg(repe_verif)]
+use tokio_tungstenite::WebSocketStream;
+#[cfg(not(repe_verif))]
 use tokio_tungstenite::{MaybeTlsStream, WebSocketStream, connect_async_with_config};
 
 type PendingSender = oneshot::Sender<Result<Message, RepeError>>;
@@ -712,6 +718,14 @@ impl WebSocketClient {
             Ok(builder)
         })
         .await
+    }
+}
+
+#[cfg(repe_verif)]
+impl WebSocketClient {
+    /// Verification only: number of calls currently registered as awaiting a response.
+    pub fn verif_pending_len(&self) -> usize {
+        lock_pending_map(&self.inner.pending).len()
     }
 }
 
